@@ -148,6 +148,14 @@ Ltac costly := repeat (progress crunch1);
   | |- true = false => fail
   | _ => arith_known; repeat (progress crunch1); reflexivity
   end.
+(* last resort: case-split on what evaluation is still blocked on; every branch must come out false *)
+Ltac splitty :=
+  repeat (progress crunch1);
+  first [ reflexivity
+        | lazymatch goal with
+          | |- true = false => fail
+          | |- context [match ?x with _ => _ end] => destruct x; splitty
+          end ].
 Ltac try_at f lem k sel unf := apply (lem k); sel; unf; f.
 Ltac falsify_with f lem sel unf :=
   first [ try_at f lem 0%nat sel unf | try_at f lem 1%nat sel unf | try_at f lem 2%nat sel unf | try_at f lem 3%nat sel unf
@@ -161,7 +169,8 @@ Ltac falsify_with f lem sel unf :=
 Ltac falsify key lem sel unf :=
   first [ falsify_with ltac:(lazymatch goal with |- context [key] => cheap end) lem sel unf
         | falsify_with cheap lem sel unf
-        | falsify_with costly lem sel unf ].
+        | falsify_with costly lem sel unf
+        | falsify_with splitty lem sel unf ].
 Ltac is_leaf := lazymatch goal with |- match fst (_, _) with ACCEPT => _ | _ => _ end => idtac end.
 Ltac unlocal := repeat match goal with x := _ |- _ => subst x end.
 (* the scrutinee the sequential program is waiting for *)
@@ -602,7 +611,7 @@ Section Proofs.
   (* the finalized epoch's start slot is representable *)
   Definition fin_wf : Prop := fst (finalized b) * SLOTS_PER_EPOCH c < two64.
 
-  Ltac blk_sel := lazy [ok_at rej_at all_conditions no_reject_fails forallb block_conditions app c_ok c_tag mk is_ignore].
+  Ltac blk_sel := lazy [ok_at rej_at all_conditions no_reject_fails forallb block_conditions c_ok c_tag mk is_ignore].
   Ltac blk_unf := unfold shuffling_state, not_from_future, latest_slot, compute_signing_root, compute_epoch_at_slot.
   Ltac blk_pre :=
     try match goal with
@@ -634,6 +643,97 @@ Section Proofs.
   Theorem block_laws blk : cfg_wf c -> b_slot blk < two64 -> fin_wf ->
     verdict_laws (validate_block b blk) (block_conditions b blk).
   Proof. intros. apply verdict_ok_laws, block_verdict_ok; assumption. Qed.
+
+
+  (* ============================================================================================
+     sync_committee_{subnet_id}, sync_committee_contribution_and_proof
+     ============================================================================================ *)
+  Lemma current_slot_spec slot : slot < two64 -> span_ok b slot 0 = is_current_slot b slot.
+  Proof.
+    intros Hs. unfold span_ok, is_current_slot, earliest_slot, latest_slot.
+    rewrite check_slot_span_iff by (auto; reflexivity). unfold check_slot_span_spec. rewrite N.add_0_r.
+    replace (slot <? two64) with true by lia. reflexivity.
+  Qed.
+
+  Lemma in_subnet_from_spec l val subnet k :
+    in_subnet_from b (N.of_nat k) l val subnet =
+    memN subnet (map (fun i => i / sync_subcommittee_size b)
+                     (map fst (filter (fun p => snd p =? val) (combine (map N.of_nat (seq k (length l))) l)))).
+  Proof.
+    revert k. induction l as [|v l IH]; intros k; [reflexivity|].
+    cbn [in_subnet_from length seq map combine filter snd].
+    change (subcommittee_size b) with (sync_subcommittee_size b).
+    replace (N.of_nat k + 1) with (N.of_nat (S k)) by lia. rewrite IH.
+    destruct (v =? val); cbn [andb map fst memN existsb].
+    - rewrite (N.eqb_sym subnet). destruct (N.of_nat k / sync_subcommittee_size b =? subnet); reflexivity.
+    - reflexivity.
+  Qed.
+
+  Lemma in_subnet_spec l val subnet :
+    in_subnet b l val subnet = memN subnet (subnets_for_sync_committee b l val).
+  Proof. unfold in_subnet, subnets_for_sync_committee, positions_of. apply (in_subnet_from_spec l val subnet 0). Qed.
+
+  Ltac sync_sel := lazy [ok_at rej_at all_conditions no_reject_fails forallb sync_message_conditions c_ok c_tag mk is_ignore].
+  Ltac sync_unf := unfold sync_state, compute_signing_root, compute_epoch_at_slot.
+  Ltac sync_pre := try rewrite in_subnet_spec.
+  Ltac sync_step := seq_step sync_pre ltac:(fun t => leaf t sync_sel sync_unf).
+
+  Lemma sync_message_verdict_ok subnet m : sm_slot m < two64 ->
+    verdict_ok (validate_sync_message b subnet m) (sync_message_conditions b subnet m).
+  Proof.
+    intros Hs. unfold validate_sync_message, validate_sync_message_v, verdict_ok.
+    cbn [sync_span fixed]. rewrite (current_slot_spec _ Hs).
+    unfold sync_message_sig_ok, signing_root, slot_to_epoch.
+    repeat sync_step.
+  Qed.
+
+  Theorem sync_message_laws subnet m : sm_slot m < two64 ->
+    verdict_laws (validate_sync_message b subnet m) (sync_message_conditions b subnet m).
+  Proof. intros. apply verdict_ok_laws, sync_message_verdict_ok; assumption. Qed.
+
+  (* ---------- contributions ---------- *)
+  Lemma count_true_zero bits : (count_true bits =? 0) = negb (existsb (fun x => x) bits).
+  Proof.
+    unfold count_true. induction bits as [|x bits IH]; [reflexivity|].
+    cbn [filter existsb]. destruct x; cbn [orb negb length]; [lia | exact IH].
+  Qed.
+
+  Lemma is_sync_aggregator_spec sel : is_sync_aggregator b sel = is_sync_committee_aggregator b sel.
+  Proof.
+    unfold is_sync_aggregator, is_sync_committee_aggregator.
+    generalize (SYNC_COMMITTEE_SIZE c / SYNC_COMMITTEE_SUBNET_COUNT / TARGET_AGGREGATORS_PER_SYNC_SUBCOMMITTEE). intros m.
+    destruct (m <? 1) eqn:E.
+    - rewrite N.max_l by lia. reflexivity.
+    - rewrite N.max_r by lia. reflexivity.
+  Qed.
+
+  Lemma subcommittee_spec l sub : subcommittee b l sub = sync_subcommittee b l sub.
+  Proof. unfold subcommittee, sync_subcommittee, subcommittee_size, sync_subcommittee_size. rewrite N.mul_comm. reflexivity. Qed.
+
+  Lemma pubkeys_of_member e l : pubkeys_of b e l = member_pubkeys b e l.
+  Proof.
+    induction l as [|x l IH]; [reflexivity|]. cbn [pubkeys_of member_pubkeys]. rewrite IH.
+    destruct (pubkey_of b e x); [|reflexivity]. destruct (member_pubkeys b e l); reflexivity.
+  Qed.
+
+  Ltac ctr_sel := lazy [ok_at rej_at all_conditions no_reject_fails forallb contribution_conditions c_ok c_tag mk is_ignore].
+  Ltac ctr_unf := unfold sync_state, signed_by, compute_signing_root, compute_epoch_at_slot.
+  Ltac ctr_pre := try rewrite subcommittee_spec; try rewrite select_bits_spec; try rewrite pubkeys_of_member.
+  Ltac ctr_step := seq_step ctr_pre ltac:(fun t => leaf t ctr_sel ctr_unf).
+
+  Lemma contribution_verdict_ok sc : c_slot (cap_contribution (sc_msg sc)) < two64 ->
+    verdict_ok (validate_contribution b sc) (contribution_conditions b sc).
+  Proof.
+    intros Hs. unfold validate_contribution, validate_contribution_v, verdict_ok.
+    cbn [sync_span fixed]. unfold subnet_bits_ones_count. cbn [sync_bits_as_bitlist fixed].
+    rewrite (current_slot_spec _ Hs), count_true_zero, is_sync_aggregator_spec.
+    unfold verify_by, contribution_sig_ok, eth2_fast_aggregate_verify, sync_selection_data_htr, signing_root, signing_root_bytes, slot_to_epoch.
+    repeat ctr_step.
+  Qed.
+
+  Theorem contribution_laws sc : c_slot (cap_contribution (sc_msg sc)) < two64 ->
+    verdict_laws (validate_contribution b sc) (contribution_conditions b sc).
+  Proof. intros. apply verdict_ok_laws, contribution_verdict_ok; assumption. Qed.
 
 
 End Proofs.
